@@ -222,8 +222,30 @@ ERRFMT = {"parse": 'could not parse "%s": %s', "update": 'could not update "%s":
           "rewrite": 'failed to rewrite "%s": %s', "reformat": 'reformat "%s": %s'}
 
 
+def match_stdout(actual, segs):
+    """segs: [("bytes", b) | ("log", path)].  Content must match byte for byte; a log line (-v) is one line that names
+    the file - its wording is not part of any property.  Returns None or a description of the first difference."""
+    pos = 0
+    for sg in segs:
+        if sg[0] == "bytes":
+            if actual[pos:pos + len(sg[1])] != sg[1]:
+                return "content differs at offset %d: expected %r..., got %r..." % (pos, sg[1][:120], actual[pos:pos + 120])
+            pos += len(sg[1])
+        else:
+            nl = actual.find(b"\n", pos)
+            if nl < 0:
+                return "missing -v line about %s" % sg[1]
+            line = actual[pos:nl]
+            if sg[1].encode() not in line:
+                return "expected a -v line about %s, got %r" % (sg[1], line[:160])
+            pos = nl + 1
+    if pos != len(actual):
+        return "unexpected further output %r..." % actual[pos:pos + 160]
+    return None
+
+
 def render(sc, res, diff_of):
-    """model result -> expected (stdout, stderr_desc, errors, writes)"""
+    """model result -> expected (stdout segments, stderr_desc, errors, writes)"""
     evs = vlib.field(res, "events")
     errs = vlib.field(res, "errors")
     out, desc, writes = [], [], []
@@ -232,14 +254,11 @@ def render(sc, res, diff_of):
         if k == "log":
             if sc.flags["verbose"]:
                 p = unhx(e[2]).decode()
-                if isinstance(e[3], list):  # failed msg
-                    out.append(("%s: failed: %s\n" % (p, unhx(e[3][1]).decode("utf-8", "replace"))).encode())
-                else:
-                    out.append((LOGFMT[e[3]] % p).encode())
+                out.append(("log", p))
         elif k == "out":
-            out.append(unhx(e[3]))
+            out.append(("bytes", unhx(e[3])))
         elif k == "diff":
-            out.append(diff_of(unhx(e[2]).decode(), unhx(e[3]), unhx(e[4])))
+            out.append(("bytes", diff_of(unhx(e[2]).decode(), unhx(e[3]), unhx(e[4]))))
         elif k == "desc":
             desc.append(unhx(e[2]) + b":" + unhx(e[3]) + b"\n")
         elif k == "write":
@@ -248,7 +267,7 @@ def render(sc, res, diff_of):
     for e in errs:
         kind, p, m = e[0], unhx(e[1]).decode(), unhx(e[2]).decode("utf-8", "replace")
         errors.append((kind, p, m))
-    return b"".join(out), b"".join(desc), errors, writes, int(vlib.field(res, "exit")[0])
+    return out, b"".join(desc), errors, writes, int(vlib.field(res, "exit")[0])
 
 
 def run_scenarios(scs, api=False):
@@ -316,8 +335,9 @@ def compare(r, diff_of):
     r["expected"] = {"stdout": out, "desc": desc, "errors": errors, "writes": writes, "exit": exit_}
     if (ob["rc"] != 0) != (exit_ != 0):
         mm.append("exit status: model %d, gopatch %d" % (exit_, ob["rc"]))
-    if ob["stdout"] != out:
-        mm.append("stdout differs: model %r..., gopatch %r..." % (out[:200], ob["stdout"][:200]))
+    d = match_stdout(ob["stdout"], out)
+    if d:
+        mm.append("stdout differs: %s" % d)
     # stderr = descriptions, then (if any error) one line with the combined error
     err = ob["stderr"]
     if not err.startswith(desc):
